@@ -991,3 +991,20 @@ Definition unmarshal_emb (f : fmt) (ds : list dfield) (bs : list N) : edres :=
   | FPanic _ => EDPanic
   | FFuel => EDFuel
   end.
+
+(* THE NESTED VALUE EXPECTED after a round trip through a struct with embedded structs (specification): every entry
+   of the field table whose value is reached (no nil embedded pointer on its index sequence) and written (not skipped,
+   not an empty omitempty value) contributes the property's normal form of that value under its name ... *)
+Definition emb_written (vs : list dv) (tf : tfield) : option (list N * gv) :=
+  match walk (tf_path tf) vs with
+  | Some (Some x) =>
+      if f_skip (tf_fi tf) || (f_omit (tf_fi tf) && is_empty (tf_ty tf) x) then None
+      else Some (f_name (tf_fi tf), canon (tf_ty tf) x)
+  | _ => None
+  end.
+Definition emb_expected_fields (ds : list dfield) (vs : list dv) : list (list N * gv) :=
+  flat_map (fun tf => match emb_written vs tf with Some kv => [kv] | None => [] end) (type_fields ds).
+(* ... and these are put at their index sequences in a fresh struct: every other leaf holds its zero value, an embedded
+   pointer is nil exactly when nothing beneath it was put (the placement function is rebuild_l) *)
+Definition canon_emb (ds : list dfield) (vs : list dv) : list dv :=
+  rebuild_l (type_fields ds) (emb_expected_fields ds vs) [] O ds.
